@@ -10,6 +10,7 @@ import BiotiteModel.Proofs.C19NJAdd
 import BiotiteModel.Proofs.C19NJCherry
 import BiotiteModel.Proofs.C19TreeMetric
 import BiotiteModel.Proofs.C19Audit
+import BiotiteModel.Proofs.C19Pinned
 import BiotiteModel.Gen.C19
 /-!
 # C19 — property theorems (trees contain every taxon once and keep distances)
@@ -22,10 +23,89 @@ float formatting, numpy helpers) are listed in notes/C19.md.
 -/
 namespace BiotiteModel.C19
 
-/-- The `illegal_chars` list and the NJ size guard of the *current* source are the ones modelled. -/
+/-! ## Obligations on what is regenerated from the source on every run (`Gen/C19.lean`)
+
+`Gen.C19.*` are read from the current `upgma.pyx` / `nj.pyx` / `tree.pyx` (normalised statements, guards,
+constants, signatures); `Pinned.*` is what the hand-written model was written against. -/
+
+/-- Constants and comparison operators the model hard-codes: `illegal_chars`, the NJ size guard `< 4`, the
+strict `<` of both minimum searches, `height = dist_min/2`, `n_rem_nodes > 3`, `(n_rem_nodes − 2)`, the factor
+0.5 — and the model really uses these values. -/
 theorem C19_gen_constants :
-    Gen.C19.illegalChars = illegalChars.map Char.toNat ∧ Gen.C19.njMinNodes = 4 := by
-  decide
+    Gen.C19.illegalChars = illegalChars.map Char.toNat ∧ Gen.C19.njMinNodes = 4 ∧
+    Gen.C19.njMinRowsCmp = ("<", 4) ∧ Gen.C19.upgmaScanCmp = "<" ∧ Gen.C19.njScanCmp = "<" ∧
+    Gen.C19.upgmaHeightDivisor = 2 ∧ Gen.C19.njJoinCmp = (">", 3) ∧ Gen.C19.njCorrOffset = 2 ∧
+    Gen.C19.njHalf = (5, 10) ∧
+    (∀ (n : Nat) (s : UState) (m : Rat) (i j : Nat),
+      (s.merge n m i j).ht i = m / ((Gen.C19.upgmaHeightDivisor : Nat) : Rat)) ∧
+    (∀ (s : NState) (i j k : Nat),
+      brK s i j k = ((Gen.C19.njHalf.1 : Nat) : Rat) / ((Gen.C19.njHalf.2 : Nat) : Rat) * (s.d i k + s.d j k - s.d i j)) ∧
+    (∀ (n : Nat) (s : NState) (i j : Nat),
+      corrected n s i j = (((s.nrem : Int) - (Gen.C19.njCorrOffset : Nat) : Int) : Rat) * s.d i j
+        - divergence n s i - divergence n s j) := by
+  refine ⟨by decide, by decide, by decide, by decide, by decide, by decide, by decide, by decide, by decide, ?_, ?_, ?_⟩
+  · intro n s m i j; simp [UState.merge, upd, Gen.C19.upgmaHeightDivisor]
+  · intro s i j k; simp only [brK, Gen.C19.njHalf]; norm_num
+  · intro n s i j; simp [corrected, Gen.C19.njCorrOffset]
+
+/-- Order and exception classes of the input checks: dropping the two checks exact rationals cannot express
+(NaN, infinity) leaves exactly the order the model implements, and every refusal is a `ValueError`. -/
+theorem C19_gen_guards :
+    Gen.C19.upgmaGuards = [("symmetric", "ValueError"), ("nan", "ValueError"), ("infinite", "ValueError"),
+      ("negative", "ValueError")] ∧
+    Gen.C19.njGuards = [("symmetric", "ValueError"), ("nan", "ValueError"), ("infinite", "ValueError"),
+      ("rows<4", "ValueError"), ("negative", "ValueError")] := by
+  constructor <;> rfl
+
+/-- UPGMA: allocation (dtypes `uint8` / `uint32` / `float32`, `copy=True`), the minimum search (start value,
+both loop domains, skip conditions, strict comparison), the merge step (break condition, height, children
+order and branch lengths, `j_min` marked before the update loop, guard and formula of the size-weighted mean,
+both writes, size update) and the returned node — statement by statement what the model implements. -/
+theorem C19_gen_upgma :
+    Gen.C19.upgmaInit = Pinned.upgmaInit ∧ Gen.C19.upgmaScan = Pinned.upgmaScan ∧
+    Gen.C19.upgmaMerge = Pinned.upgmaMerge ∧ Gen.C19.upgmaReturn = Pinned.upgmaReturn := by
+  refine ⟨rfl, rfl, rfl, rfl⟩
+
+/-- Neighbour joining: allocation, divergence loop (diagonal included), corrected matrix, minimum search,
+branch lengths, the `n_rem_nodes > 3` split with merge and final three-way join, the matrix update and the
+recount of `n_rem_nodes`. -/
+theorem C19_gen_nj :
+    Gen.C19.njInit = Pinned.njInit ∧ Gen.C19.njDivergence = Pinned.njDivergence ∧
+    Gen.C19.njCorrected = Pinned.njCorrected ∧ Gen.C19.njScan = Pinned.njScan ∧
+    Gen.C19.njJoin = Pinned.njJoin ∧ Gen.C19.njUpdate = Pinned.njUpdate := by
+  refine ⟨rfl, rfl, rfl, rfl, rfl, rfl⟩
+
+/-- `Tree` / `TreeNode` construction and queries: `Tree.__init__` (`as_root` first, the index check and its
+exception), `leaves` returns a copy, `get_distance`, the order of the constructor checks with their exception
+classes, the assignments, `_set_parent` (stores the distance as given), `copy`, `as_root`, `distance_to`
+(both walks, `+= 1` for topological), `lowest_common_ancestor` (range and `is`), the path and leaf helpers. -/
+theorem C19_gen_tree :
+    Gen.C19.treeInit = Pinned.treeInit ∧ Gen.C19.treeCopy = Pinned.treeCopy ∧
+    Gen.C19.treeLeaves = Pinned.treeLeaves ∧ Gen.C19.treeGetDistance = Pinned.treeGetDistance ∧
+    Gen.C19.nodeInitChecks = Pinned.nodeInitChecks ∧ Gen.C19.nodeInitAssign = Pinned.nodeInitAssign ∧
+    Gen.C19.nodeSetParent = Pinned.nodeSetParent ∧ Gen.C19.nodeCopy = Pinned.nodeCopy ∧
+    Gen.C19.nodeAsRoot = Pinned.nodeAsRoot ∧ Gen.C19.nodeDistanceTo = Pinned.nodeDistanceTo ∧
+    Gen.C19.nodeLca = Pinned.nodeLca ∧ Gen.C19.createPathToRoot = Pinned.createPathToRoot ∧
+    Gen.C19.getLeavesRec = Pinned.getLeavesRec := by
+  refine ⟨rfl, rfl, rfl, rfl, rfl, rfl, rfl, rfl, rfl, rfl, rfl, rfl, rfl⟩
+
+/-- Newick writer and reader, `Tree` and `TreeNode` level: format strings, the character checks, whitespace
+removal, bracket scans, `split(":")`, the `distance = 0` fallbacks, `int(label)` / `labels.index`, the comma
+split, exception classes, `strip()` and the trailing `;`. -/
+theorem C19_gen_newick :
+    Gen.C19.treeToNewick = Pinned.treeToNewick ∧ Gen.C19.treeFromNewick = Pinned.treeFromNewick ∧
+    Gen.C19.nodeToNewick = Pinned.nodeToNewick ∧ Gen.C19.nodeFromNewick = Pinned.nodeFromNewick := by
+  refine ⟨rfl, rfl, rfl, rfl⟩
+
+/-- `as_binary` dispatch and `_as_binary` (the four branches, `node.distance + distance`, `(0, distances[0])`). -/
+theorem C19_gen_as_binary :
+    Gen.C19.asBinary = Pinned.asBinary ∧ Gen.C19.asBinaryRec = Pinned.asBinaryRec := by
+  refine ⟨rfl, rfl⟩
+
+/-- Signatures of the public entry points: parameter names, order and **default values**
+(`labels=None`, `include_distance=True`, `round_distance=None`, `topological=False`, `children=None`,
+`distances=None`, `index=None`) as the adapter and the model assume them. -/
+theorem C19_gen_signatures : Gen.C19.signatures = Pinned.signatures := rfl
 
 /-- **UPGMA: every input index is exactly one leaf.**  For every matrix the function accepts
 (any `n`, any entries, ties included) the leaves of the returned tree are a permutation of
